@@ -147,7 +147,9 @@ def api_answer(op, env):
             if C is None:
                 return 'undefined'
             w = TypeHint(C)
-            return [w.hint is C, bool(w.is_bearable(C())), bool(is_bearable(C(), C))]
+            # ... and below a PEP 585 / PEP 604 hint (these hints do not cache themselves: beartype keeps its own table of them)
+            return [w.hint is C, bool(w.is_bearable(C())), bool(is_bearable(C(), C)), bool(is_bearable([C()], list[C])),
+                    bool(is_bearable(C(), C | None)), bool(is_bearable({'k': C()}, dict[str, C]))]
         if kind == 'sub_cls':
             A, B = env['ns'].get(op[1]), env['ns'].get(op[2])
             if A is None or B is None:
